@@ -58,7 +58,7 @@ def make_walk(edges_by_state, macros, rnd, revisit=2):
                 if todo[u]:
                     goal = u
                     break
-                for (op, a, v) in edges_by_state[u]:
+                for (op, a, v) in sorted(edges_by_state[u]):           # sorted: the walk must not depend on set iteration order
                     if v not in prev:
                         prev[v] = (u, op, a)
                         q.append(v)
